@@ -28,10 +28,11 @@ class Delivery(object):
         evs = []
         # insertion order: events handed over as objects first (list order), then the rows loaded from
         # tables with add_custom_events, class by class
-        direct = [k for k, es in enumerate(spec["events"]) if not es.get("via_frame")]
+        direct = [k for k, es in enumerate(spec["events"]) if not es.get("via_frame") and not es.get("late")]
         framed = sorted((k for k, es in enumerate(spec["events"]) if es.get("via_frame")),
                         key=lambda k: (["EvA", "EvB", "EvC"].index(spec["events"][k]["cls"]), k))
-        rank = {k: r for r, k in enumerate(direct + framed)}
+        late = [k for k, es in enumerate(spec["events"]) if es.get("late") and not es.get("via_frame")]   # handed over last
+        rank = {k: r for r, k in enumerate(direct + framed + late)}
         for k, es in enumerate(spec["events"]):
             evs.append((core.parse_t(es["t"]), rank[k], es["id"], es))
         base = len(evs)
